@@ -337,6 +337,13 @@ pub fn gen_world(seed: u64, run: u64, prof: &Profile) -> WorldGen {
         m["bid_fee_rate"] = json!(pick_rate(&mut r));
         m["bid_fee_account"] = json!(bidfee_acct);
     }
+    if r.chance(0.06) {
+        // unusual but legal: the contract's own base denomination is also listed as convertible
+        let mut c: Vec<String> = serde_json::from_value(m["convertible_base_denoms"].clone()).unwrap_or_default();
+        let at = r.below(c.len() as u64 + 1) as usize;
+        c.insert(at, "base".to_string());
+        m["convertible_base_denoms"] = json!(c);
+    }
     let mut attrs: BTreeMap<String, Vec<String>> = BTreeMap::new();
     if r.chance(prof.p_attrs) {
         let a: Vec<&str> = if r.chance(0.5) { vec!["ask.kyc"] } else { vec!["ask.kyc", "ask.accredited"] };
@@ -801,7 +808,7 @@ pub fn run_one(seed: u64, run: u64, prof: &Profile, enabled: Enabled, want_sampl
 fn gen_migrate(sim: &Sim, r: &mut Rng, prof: &Profile) -> Step {
     let versions = [
         "0.15.0", "0.16.1", "0.16.2", "0.16.3", "0.17.3", "0.18.2", "0.19.0", "0.19.1", "0.19.2", "1.0.0", "1.0.1", "2.3.4",
-        "", "abc", "0.16", "v0.17.0", "0.16.02", "0.17.0-rc1",
+        "", "abc", "0.16", "v0.17.0", "0.16.02", "0.17.0-rc1", "0.16.2-rc.1", "0.16.1-beta", "0.15.0-alpha.1", "1.0.0+build5",
     ];
     let set_version = if r.chance(0.12) {
         None
